@@ -1308,3 +1308,50 @@ B("C10", "generator-first-then-limit", ALI,
             if unitary_alignment.bounds[1] > x_limit:
                 break
             yield unitary_alignment""")
+
+# =============================================================================================
+# C15
+# =============================================================================================
+M("C15", "category-weights-dropped", SAM,
+  "                category = np.random.choice(self._categories, p=self._categories_weight)",
+  "                category = np.random.choice(self._categories)", "R-C15-2", "uniform instead of weighted categories")
+M("C15", "gap-from-duration-parameters", SAM,
+  "                gap = np.random.normal(self._avg_gap, self._std_gap)",
+  "                gap = np.random.normal(self._avg_unit_duration, self._std_unit_duration)", "R-C15-2")
+M("C15", "abs-dropped-from-duration", SAM,
+  "                end = start + abs(np.random.normal(self._avg_unit_duration, self._std_unit_duration))\n                # Segments",
+  "                end = start + np.random.normal(self._avg_unit_duration, self._std_unit_duration)\n                # Segments", "R-C15-2")
+M("C15", "std-gap-from-durations", SAM,
+  "        self._std_gap = float(np.std(gaps))", "        self._std_gap = float(np.std([unit.segment.duration for _, unit in self._reference_continuum]))", "R-C15-3")
+M("C15", "loop-over-all-reference-annotators", SAM,
+  "        for annotator in self._ground_truth_annotators:\n            new_continnum.add_annotator(annotator)",
+  "        for annotator in self._reference_continuum.annotators:\n            new_continnum.add_annotator(annotator)", "R-C15-1")
+M("C15", "nonempty-guard-removed", SAM,
+  "            if not new_continnum:\n                nb_units = max(1, nb_units)\n", "", "R-C15-2")
+M("C15", "precision-loop-after-add", SAM,
+  """                while end - start < pyannote.core.segment.SEGMENT_PRECISION:
+                    end = start + abs(np.random.normal(self._avg_unit_duration, self._std_unit_duration))
+
+                category = np.random.choice(self._categories, p=self._categories_weight)
+
+                new_continnum.add(annotator, Segment(start, end), category)
+""",
+  """                category = np.random.choice(self._categories, p=self._categories_weight)
+
+                new_continnum.add(annotator, Segment(start, end), category)
+                while end - start < pyannote.core.segment.SEGMENT_PRECISION:
+                    end = start + abs(np.random.normal(self._avg_unit_duration, self._std_unit_duration))
+""", "R-C15-2")
+M("C15", "custom-std-gap-into-avg", SAM,
+  "        self._avg_gap = avg_gap\n        self._std_gap = std_gap", "        self._avg_gap = std_gap\n        self._std_gap = avg_gap", "R-C15-4")
+M("C15", "count-std-from-gap", SAM,
+  "            nb_units = abs(int(np.random.normal(self._avg_nb_units_per_annotator, self._std_nb_units_per_annotator)))",
+  "            nb_units = abs(int(np.random.normal(self._avg_nb_units_per_annotator, self._std_gap)))", "R-C15-2")
+M("C15", "weights-not-normalised", SAM,
+  "        self._categories_weight /= self._reference_continuum.num_units\n", "", "R-C15-3")
+M("C15", "last-point-not-updated", SAM,
+  "                new_continnum.add(annotator, Segment(start, end), category)\n\n                last_point = end",
+  "                new_continnum.add(annotator, Segment(start, end), category)\n", "R-C15-2", "all units pile up near 0: gaps no longer between consecutive units")
+B("C15", "locals-renamed-and-guard-reordered", SAM,
+  "                gap = np.random.normal(self._avg_gap, self._std_gap)\n                start = last_point + gap",
+  "                start = np.random.normal(self._avg_gap, self._std_gap) + last_point")
